@@ -13,11 +13,13 @@ S64 = K.SENT['int64_t']          # stands for "untouched cell" of a float buffer
 
 # theorem name -> (kernel, kind)   kind in k_safe | k_spec | k_width | aux
 PROVED = {}
-_pth = os.path.join(COQ13, 'Props_C13.v')
-if os.path.exists(_pth):
-    _src = open(_pth).read()
-    for _m in re.finditer(r'\(\*\s*@(\w+)\s+(k_safe|k_spec|k_width|aux)\s*\*\)\s*Theorem\s+(\w+)', _src):
-        PROVED[_m.group(3)] = (_m.group(1), _m.group(2))
+PROPS_FILES = ['Props_C13.v', 'Props_C13d.v']
+for _fn in PROPS_FILES:
+    _pth = os.path.join(COQ13, _fn)
+    if os.path.exists(_pth):
+        _src = open(_pth).read()
+        for _m in re.finditer(r'\(\*\s*@(\w+)\s+(k_safe|k_spec|k_width|aux)\s*\*\)\s*Theorem\s+(\w+)', _src):
+            PROVED[_m.group(3)] = (_m.group(1), _m.group(2))
 THEOREMS = sorted(PROVED)
 
 MODELS = {}
